@@ -155,6 +155,7 @@ CHECKS = {
         level_text="Layer 1 releases one goroutine per simulated server at once, each pushing the messages the real server aggregator produced into its own real client aggregator over one shared global group set while a reporter spins, 25 rounds per case; the final CSV must equal the central evaluation. Layer 2 runs the real dmap binary over 1..130 files per server, 0..24 servers, limits below and above the file count, one glob or one command per file, with sleeps at the hooked aggregator / registration / limiter / merge points and CPU hogs; exit 0 within the deadline and totals equal to the central evaluation of all lines. In the clean schedule space two hook await actions let the server know what the client knows (how many files / commands follow), there every failure is a violation; in the free space a failing run must show the known defect's signature in its hook trace.",
         level_note="Schedules are sampled (load, hook delays), not enumerated. Termination is a bounded-response check (120 s, repeated once). The known finding 'aggregator-ends-early' (server cannot know that more files or commands follow) is suppressed only when the trace shows the aggregator's 'no more files' decision before all files were registered, or the session's shutdown before all commands arrived.",
         tests=[
+            dict(name="TestC06Witness", quick=dict(timeout=600), thorough=dict(timeout=600)),
             dict(name="TestC06Merge", quick=dict(checks=80, shards=4, timeout=900), thorough=dict(checks=3000, shards=6, timeout=3400)),
             dict(name="TestC06E2E", quick=dict(checks=9, shards=10, timeout=900), thorough=dict(checks=250, shards=10, timeout=3400)),
         ]),
@@ -164,6 +165,7 @@ CHECKS = {
         level_text="Generated file sets with line counts around the internal queue capacities are read through the real client binaries while the harness consumes their stdout at a generated pace (tiny reads, small pipe, uniform slowness, stalls of up to 5.6 s placed at a fraction of the stream or just before its end); commands come as one glob, one per file or the same file twice, with limits that force queueing, and the verif hooks add delays at the shutdown handshake, between commands and around the limiter. The tagged lines delivered per file must be exactly the selected ones, once and in order, exit status 0, and the session must end by itself.",
         level_note="Termination is a bounded-response check (60 s + twice the generated pauses; a miss is re-examined with a fast consumer before it is reported). Schedules are sampled, not enumerated. The known finding 'session-ends-before-all-commands-arrived' is suppressed only for multi-command sessions whose hook trace shows the shutdown beginning before the last command had arrived.",
         tests=[
+            dict(name="TestC02Witness", quick=dict(timeout=600), thorough=dict(timeout=600)),
             dict(name="TestC02E2E", quick=dict(checks=12, shards=10, timeout=900), thorough=dict(checks=300, shards=10, timeout=3400)),
             dict(name="TestC02Handler", quick=dict(checks=60, shards=6, timeout=900), thorough=dict(checks=1500, shards=6, timeout=3400)),
         ]),
